@@ -180,6 +180,11 @@ impl<'a> GenCtx<'a> {
     }
 
     pub fn instr(&self, r: &mut Rng) -> ISpec {
+        if r.chance(1, 80) {
+            // an instruction item whose name the executing set does not know (programmatic
+            // code, or code parsed with a larger set): step() must treat it as a no-op
+            return ISpec::I((*r.pick(&["UNKNOWN.OP", "INTEGER.FOO", "NOOP2", "CODE.FROBNICATE"])).to_string());
+        }
         if !self.focus.is_empty() && r.chance(2, 5) {
             return ISpec::I(r.pick(&self.focus).clone());
         }
